@@ -13,6 +13,30 @@ func TestRapid(t *testing.T)   { Oracle.Rapid(t) }
 func TestReplay(t *testing.T)  { Oracle.Replay(t) }
 func FuzzC16(f *testing.F)     { Oracle.Fuzz(f) }
 
+// TestFreshChild is the re-executed half of the fresh-process mode (kit/fresh.go).
+func TestFreshChild(t *testing.T) {
+	if !Oracle.FreshChild(t) {
+		t.Skip("not a fresh-process child")
+	}
+}
+
+// TestFresh: every one of the six groups of calls as the FIRST library call of a
+// process (the others following in rotating orders), at depths around the word
+// boundaries.
+func TestFresh(t *testing.T) {
+	env := kit.GetEnv(Property)
+	rec := kit.NewRecorder(env, "fresh")
+	defer func() { rec.Flush(!t.Failed()) }()
+	vs, us := BoundaryInts()
+	for i, b := range []int{1, 2, 8, 31, 32, 33, 63, 64} {
+		for first := 0; first < 6; first++ {
+			// permutation index whose first element is `first`, the rest varying with the depth
+			order := first + 6*((i*17+first*5)%120)
+			Oracle.One(t, env, rec, "fresh", &Case{B: b, Vs: vs, Us: us, T: IntTypes[(i+first)%len(IntTypes)], H: b, L: 1 + (first % b), Order: order, Fresh: true})
+		}
+	}
+}
+
 // TestSweep: all 64 depths x the boundary value set; Scale over all h >= l x 11 types.
 func TestSweep(t *testing.T) {
 	env := kit.GetEnv(Property)
